@@ -14,8 +14,8 @@
 //        -> m0..m(n-1) | V | a_j mod p_i (all j) | RnsToRing(RingToRns(a_j)) | ck_k (k=1..n-1) | V2 | accessors .. | V3
 //           | digits into an exact-size garbage destination | digits into an oversized destination (first n) | RingToRns(a_last) into an
 //           empty destination | answer of the first call
-//   fixed <hist> <tt> n p1..pn r1..rn                RNSsystemFixed<Integer>, residues in a vector<tt> (or Array0<Integer>: tt = array0)  -> V V2
-//   cra <dom> <reduce 1|0> M D A e                   ChineseRemainder<IntegerDom,Dom,reduce>  -> res res(copy)   (constructor arguments changed before use; assignment: c14_craassign.C)
+//   fixed <hist> <tt> n p1..pn r1..rn                RNSsystemFixed<Integer>, residues in a vector<tt> (or Array0<Integer>: tt = array0)  -> V V2 | levels (size entries)*
+//   cra <dom> <reduce 1|0> M D A e                   ChineseRemainder<IntegerDom,Dom,reduce>  -> res res(copy) res(in place: destination == A)   (constructor arguments changed before use; assignment: c14_craassign.C)
 //   lift <dom> <atonce|prepared|copies> n p.. r..    incremental lifting x_1..x_n by the functor | RNSsystem::RnsToRing
 //   poly <hist> <dom> p n a1..an r1..rn d c0..cd     Poly1CRT<dom> over GF(p)
 //        -> coefficients of RnsToRing(r) (low degree first, degree-stripped) | evaluations of the polynomial c at a_i
@@ -323,6 +323,10 @@ static std::string run_fixed(const std::string& hist, const IV& P, const IV& R0)
     S->RnsToRing(V, R);
     Integer V2(-3); S->RnsToRing(V2, R);            // a second conversion on the same object
     o << V << " " << V2;
+    // the stored product tree (Primes()): per level its size and its entries
+    const FX::tree& T = S->Primes();
+    o << " | " << T.size() << " ";
+    for (size_t l = 0; l < T.size(); ++l) { o << T[l].size() << " "; for (size_t c = 0; c < T[l].size(); ++c) o << T[l][c] << " "; }
     delete S;
     return o.str();
 }
@@ -347,13 +351,16 @@ static std::string run_cra(const Integer& M, const Integer& Dm, const Integer& A
     CRA_t copy(*CRA);
     delete CRA; delete Mvar; delete Dvar;
     Integer res2(-5); copy(res2, A, ee);
-    return str(res) + " " + str(res2);       // (assignment of functors: harness/c14_craassign.C)
+    // in-place call form: the destination is the same object as A
+    Integer res3(A); copy(res3, res3, ee);
+    return str(res) + " " + str(res2) + " " + str(res3);       // (assignment of functors: harness/c14_craassign.C)
 }
 
 // incremental lifting over a list of moduli:  x_1 = r_1,  x_{i+1} = lift(x_i, r_{i+1})  with M_i = p_1 ... p_i
 //   mode atonce   : functor i is built when needed and applied at once
 //   mode prepared : all functors are built first (the variable holding the partial product keeps growing), then applied
 //   mode copies   : as prepared, but the functors used are copies and the originals are destroyed first
+//   mode inplace  : as prepared, every step applied in place  L(x, x, e)  (the destination is the same object as A)
 template <class Dom>
 static std::string run_lift(const std::string& mode, const IV& P, const IV& R) {
     typedef ChineseRemainder<IntegerDom, Dom, true> CRA_t;
@@ -373,7 +380,11 @@ static std::string run_lift(const std::string& mode, const IV& P, const IV& R) {
         for (size_t i = 1; i < n; ++i) { Ls.push_back(new CRA_t(ID, M, F[i])); M *= P[i]; }
         if (mode == "copies") for (size_t i = 0; i < Ls.size(); ++i) { CRA_t* c = new CRA_t(*Ls[i]); delete Ls[i]; Ls[i] = c; }
         M = Integer(1);
-        for (size_t i = 1; i < n; ++i) { Integer y(-1); (*Ls[i - 1])(y, x, E[i]); x = y; o << x << " "; }
+        for (size_t i = 1; i < n; ++i) {
+            if (mode == "inplace") (*Ls[i - 1])(x, x, E[i]);
+            else { Integer y(-1); (*Ls[i - 1])(y, x, E[i]); x = y; }
+            o << x << " ";
+        }
         for (size_t i = 0; i < Ls.size(); ++i) delete Ls[i];
     }
     // the same residues through RNSsystem
@@ -419,7 +430,7 @@ static std::string run_poly(const std::string& hist, const Integer& p, const IV&
     for (size_t i = 0; i < ev.size(); ++i) o << F.convert(t, ev[i]) << " ";
     // accessors: size, points, and the reciprocal polynomials ck_k, k = 1..n-1, each as "deg c_0 .. c_deg"
     o << "| " << S->size() << " ";
-    for (size_t i = 0; i < A.size(); ++i) o << F.convert(t, S->ith(i)) << " ";
+    for (size_t i = 0; i < A.size(); ++i) o << F.convert(t, (i & 1) ? S->Primes()[i] : S->ith(i)) << " ";
     o << "| ";
     const typename CRT::array_E& ck = S->Reciprocals();
     for (size_t k = 1; k < A.size() && k < ck.size(); ++k) {
@@ -430,7 +441,8 @@ static std::string run_poly(const std::string& hist, const Integer& p, const IV&
         for (long i = 0; i <= dc; ++i) o << F.convert(t, c[(size_t)i]) << " ";
     }
     o << "| ";
-    typename CRT::Element I2; S->RnsToRing(I2, rs);
+    typename CRT::Element I2(A.size() + 3, F.one);                    // the destination holds another polynomial of higher degree
+    S->RnsToRing(I2, rs);
     o << (S->getpolydom().areEqual(I, I2) ? 1 : 0);
     delete S;
     return o.str();
